@@ -589,6 +589,12 @@ func (w *world) end(s *vsched.Sched, r *vsched.Result) (string, string) {
 					return v, outcome
 				}
 			}
+			// the same by the harness's own clock: an attack that is still pacing when its duration is over has not ended
+			if p.Du > 0 && w.parent == nil && pr.Clock-w.began > p.Du {
+				if v := fmt.Sprintf("C02: the attack is still pacing (Pace call %d) %d after its start although its duration is %d", i, pr.Clock-w.began, p.Du); w.own(v) {
+					return v, outcome
+				}
+			}
 		}
 	}
 	if p.ClockHit && p.Mode != vsched.ClockFrozen {
@@ -938,6 +944,9 @@ func c02Plans() []plan {
 	add(params{W0: 1, M: 2, N: 2, Cause: "stop1", Slow: true}, ev.Pick(2, -1))
 	add(params{W0: 1, M: 2, N: 3, Cause: "duration", Du: 10, Wait: 4, Mode: vsched.ClockStepped}, ev.Pick(2, 3))
 	add(params{W0: 1, M: 1, N: 2, Cause: "duration", Du: 3, Wait: 4, Mode: vsched.ClockStepped}, -1)
+	// a pacer that never waits (unlimited rate) with a duration: time passes only through the clock readings themselves
+	add(params{W0: 1, M: 1, N: 4, Cause: "duration", Du: 6, Wait: 0, Mode: vsched.ClockTicking}, ev.Pick(2, -1))
+	add(params{W0: 1, M: 2, N: 4, Cause: "duration", Du: 9, Wait: 0, Mode: vsched.ClockTicking}, ev.Pick(1, 2))
 	add(params{W0: 1, M: 1, N: 0, Cause: "pacer", DNS: true}, -1)
 	add(params{W0: 1, M: 1, N: 1, Cause: "tgterr", ErrAt: 0, DNS: true}, -1)
 	add(params{W0: 1, M: 1, N: 0, Cause: "stop1", DNS: true}, -1)
